@@ -1,7 +1,7 @@
 # irsx instruction semantics (non-control): integer domain = mathematical integers with range obligations
 import z3, math, struct
 from .ir import Ptr, NULL, UNDEF, sgn, T
-from .values import SV, SF, Bundle, IV, TRUE, FALSE, zt, zb, rng, f32, tainted
+from .values import SV, SF, Bundle, IV, TRUE, FALSE, zt, zb, rng, f32, tainted, szof, compact
 
 def install(E):
     from .engine import EngineError, PathEnd, NeedFork
@@ -67,12 +67,12 @@ def install(E):
             raise EngineError('i1 op ' + op)
         xl, xh = ival(x); yl, yh = ival(y)
         if op == 'add':
-            r = SV(zt(x) + zt(y), xl + yl, xh + yh, taint=tn); return s.wrap(st, r, w)
+            r = compact(SV(zt(x) + zt(y), xl + yl, xh + yh, taint=tn, sz=szof(x) + szof(y) + 1)); return s.wrap(st, r, w)
         if op == 'sub':
-            r = SV(zt(x) - zt(y), xl - yh, xh - yl, taint=tn); return s.wrap(st, r, w)
+            r = compact(SV(zt(x) - zt(y), xl - yh, xh - yl, taint=tn, sz=szof(x) + szof(y) + 1)); return s.wrap(st, r, w)
         if op == 'mul':
             ps = (xl * yl, xl * yh, xh * yl, xh * yh)
-            r = SV(zt(x) * zt(y), min(ps), max(ps), taint=tn); return s.wrap(st, r, w)
+            r = compact(SV(zt(x) * zt(y), min(ps), max(ps), taint=tn, sz=szof(x) + szof(y) + 1)); return s.wrap(st, r, w)
         if op == 'shl':
             if not cy: raise EngineError('shift by symbolic amount')
             if y < 0 or y >= w: raise s.fail(st, 'ub', 'shift amount out of range')
